@@ -259,6 +259,20 @@ func c18Run(p c18Prog, shared []byte, concurrent bool) []string {
 					return e
 				}
 				res = hex.EncodeToString(mac)
+				// the caller fills the code into ITS packet - through the setter, or in place through the value the getter
+				// hands out (the packet's own storage) - and sends the packet
+				if ak, ok := le.EapTypeData.(*eap.EapAkaPrime); ok {
+					if a, e := ak.GetAttr(eap.AT_MAC); e == nil && op.A%2 == 0 && len(a.GetValue()) == len(mac) {
+						copy(a.GetValue(), mac)
+					} else if e := ak.SetAttr(eap.AT_MAC, mac); e != nil {
+						return e
+					}
+					w, e := le.Marshal()
+					if e != nil {
+						return e
+					}
+					res += "|" + hex.EncodeToString(w)
+				}
 			case "prf-prime":
 				a, b, c, d, e2, e := eap.EapAkaPrimePRF(append([]byte{1}, op.Bytes...), append([]byte{2}, op.Bytes...), string(op.Bytes))
 				if e != nil {
@@ -455,9 +469,180 @@ func c18Cold() c18In {
 	return in
 }
 
+// c18ErrorPaths: every goroutine decodes the SAME list of malformed datagrams (every size-like field of a few template messages
+// set to boundary values), each starting at another place of the list: the rejection paths - which ordinary inputs rarely reach -
+// run concurrently with themselves. What a goroutine got (the error text included) must be what it gets alone.
+type c18ErrIn struct {
+	Procs      int           `json:"gomaxprocs"`
+	Goroutines int           `json:"goroutines"`
+	Inputs     []model.Bytes `json:"inputs"`
+}
+
+func c18Malformed() []model.Bytes {
+	attrTV := &model.Attr{Type: 14, TV: true, Value: 128}
+	attrTLV := &model.Attr{Type: 300, Var: model.Bytes{1, 2, 3}}
+	h := model.Header{ISPI: 11, RSPI: 12, Major: 2, Exchange: 34, Flags: 8, MsgID: 2}
+	msgs := []model.Message{
+		{Header: h, Payloads: []model.Payload{
+			{Kind: model.KSA, SA: &model.SA{Proposals: []model.Proposal{{Number: 1, Protocol: 1, SPI: model.Bytes{1, 2, 3, 4},
+				Transforms: []model.Transform{{Type: 1, ID: 12, Attr: attrTV}, {Type: 2, ID: 2}, {Type: 3, ID: 2, Attr: attrTLV}, {Type: 4, ID: 14}}}}}},
+			{Kind: model.KNotify, Notify: &model.Notify{Protocol: 1, Type: 16388, SPI: model.Bytes{1, 2, 3, 4}, Data: model.Bytes{5}}},
+			{Kind: model.KDelete, Delete: &model.Delete{Protocol: 3, SPISize: 4, Count: 2, SPIs: []uint32{1, 2}}},
+		}},
+		{Header: h, Payloads: []model.Payload{
+			{Kind: model.KTSi, TS: &model.TS{Selectors: []model.Selector{{Type: 7, Protocol: 6, StartPort: 1, EndPort: 2, StartAddr: model.Bytes{10, 0, 0, 1}, EndAddr: model.Bytes{10, 0, 0, 9}},
+				{Type: 8, StartAddr: make(model.Bytes, 16), EndAddr: make(model.Bytes, 16)}}}},
+			{Kind: model.KCP, CP: &model.CP{Type: 1, Attrs: []model.CPAttr{{Type: 1, Value: model.Bytes{1, 2, 3, 4}}, {Type: 3, Value: nil}}}},
+			{Kind: model.KEAP, EAP: &model.EAP{Code: 1, Identifier: 9, Kind: model.EAka, Sub: 1, Attrs: []model.AkaAttr{{Type: model.AT_RAND, Value: make(model.Bytes, 16)},
+				{Type: model.AT_RES, Value: model.Bytes{1, 2, 3, 4, 5}}, {Type: model.AT_KDF, Value: model.Bytes{0, 1}}}}},
+			{Kind: model.KKE, KE: &model.KE{Group: 14, Data: model.Bytes{1, 2, 3}}},
+		}},
+	}
+	var out []model.Bytes
+	for _, m := range msgs {
+		e := &ref.Enc{}
+		w, err := ref.EncodeMessage(m, e)
+		if err != nil {
+			continue
+		}
+		out = append(out, w)
+		for _, f := range e.Fields {
+			if f.Width > 4 || f.Off+f.Width > len(w) || f.Kind == "data" {
+				continue
+			}
+			var cur uint64
+			for i := 0; i < f.Width; i++ {
+				cur = cur<<8 | uint64(w[f.Off+i])
+			}
+			for _, v := range []uint64{0, 1, 3, 4, 7, 8, 9, 10, 11, 12, cur - 1, cur + 1, cur + 4, 0x7f, 0x80, 0xff, 0xffff} {
+				if v == cur || (f.Width == 1 && v > 0xff) {
+					continue
+				}
+				x := append(model.Bytes(nil), w...)
+				for i := f.Width - 1; i >= 0; i-- {
+					x[f.Off+i] = byte(v)
+					v >>= 8
+				}
+				out = append(out, x)
+			}
+		}
+		for l := 0; l < len(w); l += 3 {
+			out = append(out, append(model.Bytes(nil), w[:l]...))
+		}
+	}
+	return out
+}
+
+var c18ErrorPaths = probe.Define("C18", "error-paths", func(t *rapid.T) c18ErrIn { panic("enumerated") }, func(in c18ErrIn) probe.Outcome {
+	decodeAll := func(start int) []string {
+		res := make([]string, len(in.Inputs))
+		for k := range in.Inputs {
+			i := (start + k) % len(in.Inputs)
+			err := probe.Try(func() error { return new(message.IKEMessage).Decode(probe.Exact(in.Inputs[i])) })
+			if err != nil {
+				res[i] = "error: " + firstLine(err.Error())
+			} else {
+				res[i] = "ok"
+			}
+		}
+		return res
+	}
+	old := runtime.GOMAXPROCS(in.Procs)
+	got := make([][]string, in.Goroutines)
+	var wg sync.WaitGroup
+	start := make(chan struct{})
+	for g := 0; g < in.Goroutines; g++ {
+		wg.Add(1)
+		go func(g int) {
+			defer wg.Done()
+			<-start
+			got[g] = decodeAll(g * 37)
+		}(g)
+	}
+	close(start)
+	wg.Wait()
+	runtime.GOMAXPROCS(old)
+	want := decodeAll(0)
+	for g := range got {
+		for i := range want {
+			if got[g][i] != want[i] {
+				return probe.Fail("goroutine %d, malformed input %d: outcome when decoded concurrently differs from the outcome when decoded alone:\n alone:      %s\n concurrent: %s", g, i, want[i], got[g][i])
+			}
+		}
+	}
+	return probe.OK(true, "error-paths", fmt.Sprintf("malformed-inputs:%d", len(in.Inputs)))
+})
+
+// c18DHStorm: many more goroutines than processors, each running full-size exponentiations in both groups: a goroutine is
+// preempted in the middle of a computation while the others run many of their own. Each goroutine checks the agreement law on
+// its own two key pairs (and the race detector watches).
+type c18StormIn struct {
+	Procs      int         `json:"gomaxprocs"`
+	Goroutines int         `json:"goroutines"`
+	Seed       model.Bytes `json:"seed"`
+}
+
+var c18DHStorm = probe.Define("C18", "dh-storm", func(t *rapid.T) c18StormIn { panic("enumerated") }, func(in c18StormIn) probe.Outcome {
+	old := runtime.GOMAXPROCS(in.Procs)
+	defer runtime.GOMAXPROCS(old)
+	errs := make([]string, in.Goroutines)
+	var wg sync.WaitGroup
+	start := make(chan struct{})
+	for g := 0; g < in.Goroutines; g++ {
+		wg.Add(1)
+		go func(g int) {
+			defer wg.Done()
+			<-start
+			grp := dh.StrToType(ref.DHs[g%2].Name)
+			n := ref.DHs[g%2].Bits / 8
+			mk := func(tag byte) *big.Int {
+				b := make([]byte, 256)
+				for i := range b {
+					b[i] = byte(i)*31 ^ tag ^ byte(g*7)
+					if i < len(in.Seed) {
+						b[i] ^= in.Seed[i]
+					}
+				}
+				b[0] |= 0x80
+				return new(big.Int).SetBytes(b)
+			}
+			a, b := mk(1), mk(2)
+			err := probe.Try(func() error {
+				pa, pb := grp.GetPublicValue(a), grp.GetPublicValue(b)
+				pa0, pb0 := append([]byte(nil), pa...), append([]byte(nil), pb...)
+				runtime.Gosched()
+				s1 := grp.GetSharedKey(a, new(big.Int).SetBytes(pb))
+				s2 := grp.GetSharedKey(b, new(big.Int).SetBytes(pa))
+				if len(pa) != n || len(s1) != n || !bytes.Equal(s1, s2) {
+					return fmt.Errorf("the two sides of an exchange disagree (or a value has the wrong length)")
+				}
+				if !bytes.Equal(pa, pa0) || !bytes.Equal(pb, pb0) {
+					return fmt.Errorf("a public value handed out earlier changed while other computations ran")
+				}
+				return nil
+			})
+			if err != nil {
+				errs[g] = err.Error()
+			}
+		}(g)
+	}
+	close(start)
+	wg.Wait()
+	for g, e := range errs {
+		if e != "" {
+			return probe.Fail("goroutine %d of %d (GOMAXPROCS %d): %s", g, in.Goroutines, in.Procs, e)
+		}
+	}
+	return probe.OK(true, "dh-storm", fmt.Sprintf("goroutines:%d", in.Goroutines))
+})
+
 func TestC18(t *testing.T) {
 	c := probe.NewCtx(t, "C18")
 	c18Concurrent.Eval(c, c18Cold())
+	c18ErrorPaths.Eval(c, c18ErrIn{Procs: 8, Goroutines: 8, Inputs: c18Malformed()})
+	for i := 0; i < c.N(1, 4); i++ {
+		c18DHStorm.Eval(c, c18StormIn{Procs: 4, Goroutines: 96, Seed: model.Bytes{byte(i), byte(c.Shard)}})
+	}
 	c.Note("race detector enabled: %v; schedules are sampled by the Go runtime, not enumerated", raceEnabled)
 	c18Concurrent.Run(c, t, c.N(120, 1000))
 }
